@@ -466,7 +466,11 @@ func (t *sseClientTransport) sendResponseMessage(response interface{}) {
 		return
 	}
 
-	ctx, cancel := context.WithTimeout(context.Background(), 30*time.Second)
+	// The stream's context carries the values of the handshake's context.
+	t.sseConn.mutex.Lock()
+	parentCtx := t.sseConn.ctx
+	t.sseConn.mutex.Unlock()
+	ctx, cancel := context.WithTimeout(parentCtx, 30*time.Second)
 	defer cancel()
 
 	httpReq, err := http.NewRequestWithContext(ctx, http.MethodPost, t.endpoint.String(), bytes.NewReader(respBytes))
@@ -483,6 +487,16 @@ func (t *sseClientTransport) sendResponseMessage(response interface{}) {
 	for key, values := range t.httpHeaders {
 		for _, value := range values {
 			httpReq.Header.Add(key, value)
+		}
+	}
+
+	// Apply HTTP before-request functions.
+	if t.client != nil {
+		if err := t.client.applyHTTPBeforeRequest(ctx, httpReq); err != nil {
+			if t.logger != nil {
+				t.logger.Errorf("HTTP before-request failed for response: %v", err)
+			}
+			return
 		}
 	}
 
